@@ -306,6 +306,16 @@ def list_harnesses(prefixes):
                 found[name] = {"module": fn[:-3], "should_panic": "should_panic" in attrs,
                                "unwind": int(um.group(1)) if um else None,
                                "contract": "proof_for_contract" in m.group(0)}
+        # harness families generated by a local macro:  macro_rules! xyz_harnesses { ... #[kani::proof] ... fn $name ... }
+        for mm in re.finditer(r"macro_rules!\s+(\w+_harnesses)\s*\{(.*?)\n\}", src, re.S):
+            mname, mbody = mm.group(1), mm.group(2)
+            um = re.search(r"kani::unwind\((\d+)\)", mbody)
+            for inv in re.finditer(re.escape(mname) + r"!\s*\{(.*?)\n\}", src, re.S):
+                for nm in re.finditer(r"\b(\w+)\s*:", inv.group(1)):
+                    name = nm.group(1)
+                    if any(name.startswith(p) for p in prefixes):
+                        found[name] = {"module": fn[:-3], "should_panic": "should_panic" in mbody,
+                                       "unwind": int(um.group(1)) if um else None, "contract": False}
     return found
 
 
